@@ -1091,9 +1091,86 @@ def translate_unit_px(src, unit, fail):
     return "\n".join(txt) + "\n", snippets
 
 
+# ================================================================================================== units of sub-dialect "io"
+
+def _left_io_class():
+    import rs2lean_cf as cf
+    Base = cf.IoFn
+
+    class LeftIoFn(Base):
+        """`IoFn` plus **ghost capacity fields**: a struct of the spec with `ghost_caps={"buf_cap": "buf"}` gets, in every
+        struct literal, the extra field `buf_cap := n` where `buf: Vec::with_capacity(n)` is the initialiser of `buf` in the
+        text (anything else as initialiser is refused).  Trusted reading: `Vec::with_capacity(n)` is the empty vector and
+        `capacity() >= n` holds for it (std documentation)."""
+
+        def struct_lit(self, e, env, k):
+            name = e.name.split("::")[-1]
+            sd = self.structs.get(name)
+            caps = (sd or {}).get("ghost_caps", {})
+            if caps:
+                given = dict(e.fields)
+                fields = list(e.fields)
+                for ghost, fld in caps.items():
+                    x = given.get(fld)
+                    if x is None or x.kind != "call" or x.path != ["Vec", "with_capacity"] or len(x.args) != 1:
+                        self.err("field `%s` of the struct literal `%s` is not initialised by `Vec::with_capacity(n)` (the "
+                                 "ghost field `%s` records the requested capacity)" % (fld, name, ghost), e)
+                    fields.append((ghost, x.args[0]))
+                e = cf.N("struct", e.pos, name=e.name, fields=fields)
+            return Base.struct_lit(self, e, env, k)
+
+    return cf, LeftIoFn
+
+
+def translate_unit_io(src, unit, fail):
+    """a unit of genio's sub-dialect "io" translated by `rs2lean_cfbase.translate_unit` with `LeftIoFn` in the place of `IoFn`;
+    functions marked `extern=<namespace>` are siblings that live in another generated file: they are needed for the
+    calling convention (their spec) only, their (re-)translation is dropped from the text and the name is opened instead"""
+    cf, LeftIoFn = _left_io_class()
+    saved = cf.IoFn
+    cf.IoFn = LeftIoFn
+    try:
+        text, snippets = cb.translate_unit(src, dict(unit, dialect="cf"), fail)
+    finally:
+        cf.IoFn = saved
+    opens = {}
+    for f in unit["functions"]:
+        if f.get("extern"):
+            opens.setdefault(f["extern"], []).append(f["lean"])
+            hdr = "/-- `%s` (" % " ".join(f["header"].split())
+            i = text.find(hdr)
+            j = min(x for x in (text.find("\n/-- ", i + 1), text.find("\nend RbV.Gen.", i + 1)) if x > 0)
+            if i < 0:
+                fail("%s: internal: cannot locate the text of the external sibling %s" % (unit["file"], f["name"]))
+            text = text[:i] + text[j + 1:]
+            snippets.pop(f["name"], None)
+    for ns, names in unit.get("extern_opens", {}).items():
+        opens.setdefault(ns, [])
+        opens[ns] = list(names) + opens[ns]
+    extra = "".join("open %s (%s)\n" % (ns, " ".join(names)) for ns, names in opens.items())
+    text = text.replace("open RbV RbV.Rs\n", "open RbV RbV.Rs\n" + extra, 1)
+    # a generated structure with a field of the opaque reader type takes `ρ` as a parameter: name it in type positions
+    for sname, sd in unit.get("io_structs", {}).items():
+        if sd.get("emit", True) and any(ft in unit.get("generics", {}) for _, ft in sd["fields"]):
+            head, sep, tail = text.partition("\nnamespace RbV.Gen.")
+            lines = []
+            for l in tail.split("\n"):
+                if not (l.startswith("/--") or l.startswith("structure ")):
+                    l = re.sub(r"(?<![\w.`])%s(?![\w])" % sname, "(%s ρ)" % sname, l)
+                lines.append(l)
+            text = head + sep + "\n".join(lines)
+    imports = "".join("import %s\n" % m for m in unit.get("imports", []))
+    text = text.replace("import RbV.Basic.RsSem\n", "import RbV.Basic.RsSem\nimport RbV.Basic.RsSemGenleft\n" + imports, 1)
+    text = text.replace("GENERATED by tools/rs2lean.py", "GENERATED by tools/rs2lean_genleft.py (sub-dialect io of tools/rs2lean_cf.py)", 1)
+    text = text.replace("`RbV/Thm/GenSrc%s.lean`" % unit["name"][3:], "`RbV/Thm/Gen%s.lean`" % unit["name"], 1)
+    return text, snippets
+
+
 def translate_unit(src, unit, fail):
     if unit.get("dialect") == "px":
         return translate_unit_px(src, unit, fail)
+    if unit.get("dialect") == "io":
+        return translate_unit_io(src, unit, fail)
     raise SystemExit("rs2lean_genleft: unit %s has no known dialect" % unit.get("name"))
 
 
@@ -1155,6 +1232,41 @@ unit(name="SrcOrfNew", dialect="px", props="property C20", file=ORF_FILE,
               self_ty="Finder", params=[("seq", "[u8]")], ret="Matches",
               theorem="RbV.Thm.C20.orf_find_all_source_accepted"),
      ])
+
+
+# C12: `IndexedReader::read_into_iter`, `read_iter` (what genio read by hand).  `seek_to` is the translated function of
+# `Gen/SrcIdxFa.lean` (listed for its calling convention, `extern`); `IndexRecord` is the structure generated there.
+IDXFA_OPS = cb.IDXFA_OPS
+unit(name="SrcIdxFaIter", dialect="io", props="property C12", file="src/io/fasta.rs", lean_imports=["RbV.Basic.RsSemIo"],
+     imports=["RbV.Gen.SrcIdxFa"], extern_opens={"RbV.Gen.SrcIdxFa": ["IndexRecord"]},
+     generics={"Rd": "ρ"}, aliases={"Text": "Vec<u8>"}, io_ops=IDXFA_OPS,
+     io_structs={"IndexRecord": dict(fields=[("len", "u64"), ("offset", "u64"), ("line_bases", "u64"), ("line_bytes", "u64")],
+                                     skip=["name"], emit=False,
+                                     pinned="struct IndexRecord { name: String, len: u64, offset: u64, line_bases: u64, "
+                                            "line_bytes: u64, }"),
+                 "IndexedReaderIterator": dict(
+                     fields=[("reader", "Rd"), ("record", "IndexRecord"), ("bases_left", "u64"), ("line_offset", "u64"),
+                             ("buf", "Vec<u8>"), ("buf_idx", "usize"), ("buf_cap", "usize")],
+                     self_alias={"reader": "reader"}, ghost_caps={"buf_cap": "buf"},
+                     pinned="pub struct IndexedReaderIterator<'a, R: io::Read + io::Seek> { reader: &'a mut IndexedReader<R>, "
+                            "record: IndexRecord, bases_left: u64, line_offset: u64, buf: Vec<u8>, buf_idx: usize, }")},
+     io_consts={"MAX_FASTA_BUFFER_SIZE": "usize"},
+     functions=[dict(name="IndexedReader::seek_to", lean="seekTo", io=True, extern="RbV.Gen.SrcIdxFa",
+                     header="fn seek_to(&mut self, idx: &IndexRecord, start: u64) -> io::Result<u64>",
+                     self_fields=[("reader", "Rd")], params=[("idx", "&IndexRecord"), ("start", "u64")],
+                     ret="io::Result<u64>", outs=["self.reader"], ops=["seekStart"]),
+                dict(name="IndexedReader::read_into_iter", lean="readIntoIter", io=True,
+                     header="fn read_into_iter(&mut self, idx: IndexRecord, start: u64, stop: u64,) "
+                            "-> io::Result<IndexedReaderIterator<'_, R>>",
+                     self_fields=[("reader", "Rd")], params=[("idx", "IndexRecord"), ("start", "u64"), ("stop", "u64")],
+                     ret="io::Result<IndexedReaderIterator>", outs=[], ops=["seekStart"], siblings=["seek_to"],
+                     theorem="RbV.Thm.C12.read_into_iter_source_capacity_pos"),
+                dict(name="IndexedReader::read_iter", lean="readIter", io=True,
+                     header="pub fn read_iter(&mut self) -> io::Result<IndexedReaderIterator<'_, R>>",
+                     self_fields=[("reader", "Rd"), ("fetched_idx", "Option<IndexRecord>"), ("start", "Option<u64>"),
+                                  ("stop", "Option<u64>")],
+                     params=[], ret="io::Result<IndexedReaderIterator>", outs=[], ops=["seekStart"],
+                     siblings=["read_into_iter"], theorem="RbV.Thm.C12.read_iter_source_dispatch")])
 
 
 # ================================================================================================== self-test / main
